@@ -39,6 +39,7 @@ type walCase struct {
 	Ops         []walOp `json:"ops"`
 	NoClose     bool    `json:"no_close,omitempty"`
 	DirectIO    bool    `json:"direct_io,omitempty"` // block aligned writer (O_DIRECT itself is a declared stub); no sync appends by design
+	ReadBuf     int     `json:"read_buf,omitempty"`  // buffer of the reader factory (0: the library's default reader)
 }
 
 func walGen(r *rand.Rand, thorough bool) walCase {
@@ -84,6 +85,8 @@ func walGen(r *rand.Rand, thorough bool) walCase {
 			c.Ops = append(c.Ops, walOp{Kind: kind, Size: size})
 		}
 	}
+	// replay through a reader factory with a small buffer in half of the cases: records larger than the read buffer
+	c.ReadBuf = pick(r, 0, 0, 0, 64, 128, 512, 4096)
 	return c
 }
 
@@ -119,6 +122,9 @@ func walOptions(dir string, c walCase) (*wal.Options, error) {
 			return recordio.NewFileWriter(recordio.Path(path), recordio.BufferSizeBytes(c.BufSize), recordio.CompressionType(c.Compression))
 		}),
 		wal.ReaderFactory(func(path string) (recordio.ReaderI, error) {
+			if c.ReadBuf > 0 {
+				return recordio.NewFileReader(recordio.ReaderPath(path), recordio.ReaderBufferSizeBytes(c.ReadBuf))
+			}
 			return recordio.NewFileReaderWithPath(path)
 		}),
 	)
